@@ -33,7 +33,7 @@ ASSUMPTIONS = ["rate constant over the interval (the property's premise)", "rela
 REQUIRED = ["C06:split-invariance", "C06:same-instant-zero", "C06:earlier-time-rejected", "C06:query-changes-nothing",
             "C06:twin-query-bit-identical", "C06:positive-never-charged", "C06:negative-charged-at-r+m",
             "C06:margin-earns-nothing", "C06:rebalance-reports-interest", "C06:failed-rebalance-accrues-once"]
-REQUIRED_CATS = ["process-in-a-dst-time-zone", "base-currency-not-the-default", "refused-request-then-accrual", "query-beyond-next-accrual", "rate-quote-type:f32", "rate-quote-type:int", "rate-quoted-two-sided", "sub-second-spacing", "tz-aware-changing-offsets"]
+REQUIRED_CATS = ["fee-schedule-installed-after-construction", "process-in-a-dst-time-zone", "base-currency-not-the-default", "refused-request-then-accrual", "query-beyond-next-accrual", "rate-quote-type:f32", "rate-quote-type:int", "rate-quoted-two-sided", "sub-second-spacing", "tz-aware-changing-offsets"]
 REQUIRED_HITS = ["Broker.accrued_interest"]
 TECHNIQUE = "runtime monitoring: closed-form reference model (60-digit decimal) and twin runs over generated accrual schedules"
 LEVEL_TEXT = ("Exploration. The real Broker.accrued_interest / Broker.rebalance are driven through thousands of generated accrual "
@@ -45,6 +45,9 @@ LEVEL_NOTE = ("Trusted: Python decimal for the reference power. Mutation audit: 
 CUR = [Cash()]          # the account's base currency in the case at hand (the default dollar, or another one)
 
 
+LATE = [None]
+
+
 def mk(dep, rate, markup, t0, half_spread=0.0):
     rate_c = Rate("R")
     fees = BrokerFees(markup=markup, interest_rate=rate_c)
@@ -54,6 +57,16 @@ def mk(dep, rate, markup, t0, half_spread=0.0):
     if half_spread:
         # the reference rate itself is quoted two-sided: the rate that applies is its MID
         ex.process_EventNBBO(EventNBBO(t0, rate_c, rate - half_spread, rate + half_spread))
+    if LATE[0]:
+        # the fee schedule (a user's own, say one that needs a reference to the account) is installed AFTER the
+        # account was opened, through the public attribute; the constructor's default schedule refers to another
+        # reference-rate instrument, quoted elsewhere or not at all
+        b = Broker(ex, base_currency=CUR[0], deposit=dep)
+        if b.fees.interest_rate != rate_c and LATE[0] == "other-quoted":
+            other = 0.12 if rate < 0.06 else 0.0
+            ex.process_EventNBBO(EventNBBO(t0, b.fees.interest_rate, other, other))
+        b.fees = fees
+        return b, ex, fees
     return Broker(ex, base_currency=CUR[0], deposit=dep, fees=fees), ex, fees
 
 
@@ -79,6 +92,9 @@ def case(ctx, i, tier):
 def _case(ctx, i, tier, dst=False):
     rng = ctx.rng
     CUR[0] = Cash() if rng.random() < 0.75 else Cash(rng.choice(["EUR", "GBP"]))
+    LATE[0] = rng.choice(["other-quoted", "other-unquoted"]) if rng.random() < 0.15 else None
+    if LATE[0]:
+        ctx.cat("fee-schedule-installed-after-construction")
     if CUR[0] != Cash():
         ctx.cat("base-currency-not-the-default")
     t0 = datetime(rng.choice([1999, 2000, 2019, 2020, 2023, 2024]), rng.choice([1, 2, 3, 7, 12]), rng.choice([1, 15, 28]))
